@@ -349,6 +349,44 @@ func (e *C08Script) Run(ctx *core.Ctx, idx int) {
 			ctx.Count("C08.script-auto-pause-did-not-fire")
 			return
 		}
+		if r.Intn(2) == 0 {
+			// the user switches auto-pause off in the spec and deletes the pod that restarted: the pause the replica
+			// set recorded in its Canary-Paused condition holds until somebody unpauses or validates
+			f := false
+			w.S.Mutate(simapi.KindEDS, "ns1", "foo", func(o client.Object) {
+				o.(*v1.ExtendedDaemonSet).Spec.Strategy.Canary.AutoPause = &v1.ExtendedDaemonSetSpecStrategyCanaryAutoPause{Enabled: &f}
+			})
+			w.tracef("user: set autoPause.enabled=false on ns1/foo while the canary is auto-paused")
+			for _, p := range w.DaemonPods("ns1", "foo") {
+				if kit.MarkerOfPod(p) == "B" && len(p.Status.ContainerStatuses) > 0 && p.Status.ContainerStatuses[0].RestartCount == 3 {
+					w.S.Remove(simapi.KindPod, p.Namespace, p.Name)
+					w.tracef("user: delete pod %s (removed at once)", p.Name)
+				}
+			}
+			nB := func() int {
+				k := 0
+				for _, p := range w.DaemonPods("ns1", "foo") {
+					if kit.MarkerOfPod(p) == "B" && p.DeletionTimestamp == nil {
+						k++
+					}
+				}
+				return k
+			}
+			had := nB()
+			rounds(3)
+			w.Advance(time.Hour)
+			rounds(3)
+			ctx.Count("C08.script-holds-judged")
+			ctx.Count("C08.script-auto-pause-switched-off-while-paused")
+			if nB() > had {
+				fail("C08.canary-paused-no-create", fmt.Sprintf("%d canary pods, %d when auto-pause was switched off", nB(), had))
+				return
+			}
+			if state() != v1.ExtendedDaemonSetStatusStateCanaryPaused {
+				fail("C08.state-reflects-pause", "state "+string(state())+" after auto-pause was switched off in the spec while the canary was auto-paused")
+				return
+			}
+		}
 		if err := w.Kubectl("canary-unpause", "ns1", "foo"); err != nil {
 			fail("C08.script-command", "canary-unpause refused: "+err.Error())
 			return
